@@ -1,0 +1,400 @@
+//! Batch entry points used by the external verification harness.
+//!
+//! Only compiled with `--cfg wilfred_garden_verif`. Every mode reads
+//! one JSON object per line from a file and writes one JSON object
+//! per line to stdout. Nothing here changes interpreter behaviour: it
+//! calls the same functions the ordinary subcommands call, in-process,
+//! under `catch_unwind`, so that many inputs can be tried quickly.
+
+use std::panic::{catch_unwind, AssertUnwindSafe};
+use std::path::{Path, PathBuf};
+use std::rc::Rc;
+use std::sync::atomic::AtomicBool;
+use std::sync::{Arc, Mutex};
+use std::time::Instant;
+
+use serde_json::{json, Value as J};
+
+use crate::checks::check_toplevel_items_in_env;
+use crate::env::Env;
+use crate::eval::{
+    eval_toplevel_items, load_toplevel_items, EvalError, ExceptionInfo, Session, StdoutStderrMode,
+};
+use crate::garden_type::{is_subtype, Type, TypeDefKind};
+use crate::parser::ast::{IdGenerator, TypeName};
+use crate::parser::lex::lex;
+use crate::parser::position::Position;
+use crate::parser::vfs::Vfs;
+use crate::parser::{parse_toplevel_items, ParseError};
+
+fn pos_json(p: &Position) -> J {
+    json!({
+        "start": p.start_offset,
+        "end": p.end_offset,
+        "line": p.line_number,
+        "end_line": p.end_line_number,
+        "col": p.column,
+        "end_col": p.end_column,
+    })
+}
+
+fn panic_msg(e: Box<dyn std::any::Any + Send>) -> String {
+    if let Some(s) = e.downcast_ref::<&str>() {
+        (*s).to_owned()
+    } else if let Some(s) = e.downcast_ref::<String>() {
+        s.clone()
+    } else {
+        "<non-string panic>".to_owned()
+    }
+}
+
+fn parse_errors_json(errors: &[ParseError]) -> Vec<J> {
+    errors
+        .iter()
+        .map(|e| match e {
+            ParseError::Invalid {
+                position, message, ..
+            } => json!({"kind": "invalid", "pos": pos_json(position), "message": message.as_string()}),
+            ParseError::Incomplete {
+                position, message, ..
+            } => json!({"kind": "incomplete", "pos": pos_json(position), "message": message.as_string()}),
+        })
+        .collect()
+}
+
+fn src_path(req: &J) -> PathBuf {
+    PathBuf::from(req["path"].as_str().unwrap_or("/verif_input.gdn"))
+}
+
+/// Evaluate a program the way `garden run` does, capturing output.
+fn mode_run(req: &J) -> J {
+    let src = req["src"].as_str().unwrap_or("").to_owned();
+    let path = src_path(req);
+
+    let mut id_gen = IdGenerator::default();
+    let mut vfs = Vfs::default();
+    let vfs_path = vfs.insert(Rc::new(path.clone()), src.clone());
+
+    let (items, errors) = parse_toplevel_items(&vfs_path, &src, &mut id_gen);
+    if !errors.is_empty() {
+        return json!({"outcome": "parse_error", "parse_errors": parse_errors_json(&errors)});
+    }
+
+    let mut env = Env::new(id_gen, vfs);
+    if let Some(n) = req["tick_limit"].as_u64() {
+        env.tick_limit = Some(n as usize);
+    }
+    if let Some(n) = req["stack_limit"].as_u64() {
+        env.stack_limit = Some(n as usize);
+    }
+    if req["sandbox"].as_bool() == Some(true) {
+        env.enforce_sandbox = true;
+    }
+
+    let ns = env.get_or_create_namespace(&path);
+    env.current_frame_mut().namespace = ns;
+
+    let stdout_buf = Arc::new(Mutex::new(String::new()));
+    let stderr_buf = Arc::new(Mutex::new(String::new()));
+    let session = Session {
+        interrupted: Arc::new(AtomicBool::new(false)),
+        stdout_stderr_mode: StdoutStderrMode::WriteToNReplBuffers {
+            stdout_buf: Arc::clone(&stdout_buf),
+            stderr_buf: Arc::clone(&stderr_buf),
+        },
+        start_time: Instant::now(),
+        trace_exprs: false,
+        pretty_print_json: false,
+    };
+
+    let res = eval_toplevel_items(&vfs_path, &items, &mut env, &session);
+    let mut out = match res {
+        Ok(summary) => {
+            let value = summary.values.last().map(|v| v.display(&env));
+            let tests: Vec<J> = summary
+                .tests
+                .iter()
+                .map(|(sym, err, _)| json!({"name": sym.name.text, "failed": err.is_some()}))
+                .collect();
+            json!({"outcome": "ok", "value": value, "tests": tests})
+        }
+        Err(EvalError::Exception(ExceptionInfo { position, message })) => {
+            json!({"outcome": "exception", "message": message.as_string(), "pos": pos_json(&position)})
+        }
+        Err(EvalError::AssertionFailed(position, message)) => {
+            json!({"outcome": "assert", "message": message.as_string(), "pos": pos_json(&position)})
+        }
+        Err(EvalError::Interrupted) => json!({"outcome": "interrupted"}),
+        Err(EvalError::ReachedTickLimit(position)) => {
+            json!({"outcome": "tick", "pos": pos_json(&position)})
+        }
+        Err(EvalError::ReachedStackLimit(position)) => {
+            json!({"outcome": "stack", "pos": pos_json(&position)})
+        }
+        Err(EvalError::ForbiddenInSandbox(position)) => {
+            json!({"outcome": "sandbox", "pos": pos_json(&position)})
+        }
+    };
+    out["ticks"] = json!(env.ticks);
+    out["stdout"] = json!(stdout_buf.lock().unwrap().clone());
+    out["stderr"] = json!(stderr_buf.lock().unwrap().clone());
+    out
+}
+
+/// Lex, parse, check and format a source text, each stage separately
+/// so that a crash can be attributed.
+fn mode_frontend(req: &J) -> J {
+    let src = req["src"].as_str().unwrap_or("").to_owned();
+    let path = src_path(req);
+    let want_tokens = req["tokens"].as_bool() == Some(true);
+    let mut out = json!({});
+
+    let (vfs, vfs_path) = Vfs::singleton(path.clone(), src.clone());
+
+    match catch_unwind(AssertUnwindSafe(|| {
+        let (mut ts, errs) = lex(&vfs_path, &src);
+        let mut toks = vec![];
+        while let Some(t) = ts.pop() {
+            let mut tj = pos_json(&t.position);
+            tj["text"] = json!(t.text);
+            tj["comments"] = json!(t
+                .preceding_comments
+                .iter()
+                .map(|(p, s)| {
+                    let mut cj = pos_json(p);
+                    cj["text"] = json!(s);
+                    cj
+                })
+                .collect::<Vec<_>>());
+            toks.push(tj);
+        }
+        let trailing: Vec<J> = ts
+            .trailing_comments
+            .iter()
+            .map(|(p, s)| {
+                let mut cj = pos_json(p);
+                cj["text"] = json!(s);
+                cj
+            })
+            .collect();
+        (toks, trailing, parse_errors_json(&errs))
+    })) {
+        Ok((toks, trailing, errs)) => {
+            out["lex"] = json!("ok");
+            out["lex_errors"] = json!(errs);
+            if want_tokens {
+                out["tokens"] = json!(toks);
+                out["trailing_comments"] = json!(trailing);
+            }
+        }
+        Err(e) => {
+            out["lex"] = json!("panic");
+            out["lex_panic"] = json!(panic_msg(e));
+        }
+    }
+
+    let parsed = catch_unwind(AssertUnwindSafe(|| {
+        let mut id_gen = IdGenerator::default();
+        let (items, errors) = parse_toplevel_items(&vfs_path, &src, &mut id_gen);
+        (id_gen, items, errors)
+    }));
+    let (id_gen, items, errors) = match parsed {
+        Ok(x) => x,
+        Err(e) => {
+            out["parse"] = json!("panic");
+            out["parse_panic"] = json!(panic_msg(e));
+            return out;
+        }
+    };
+    out["parse"] = json!("ok");
+    out["parse_errors"] = json!(parse_errors_json(&errors));
+
+    if req["check"].as_bool() != Some(false) {
+        match catch_unwind(AssertUnwindSafe(|| {
+            let mut env = Env::new(id_gen, vfs);
+            let mut diags = vec![];
+            if errors.is_empty() {
+                let ns = env.get_or_create_namespace(&path);
+                let (mut raw, _) = load_toplevel_items(&items, &mut env, Rc::clone(&ns));
+                raw.extend(check_toplevel_items_in_env(&vfs_path, &items, &env, ns));
+                for d in raw {
+                    let fixes: Vec<J> = d
+                        .fixes
+                        .iter()
+                        .map(|f| json!({"pos": pos_json(&f.position), "new_text": f.new_text}))
+                        .collect();
+                    diags.push(json!({
+                        "pos": pos_json(&d.position),
+                        "message": d.message.as_string(),
+                        "severity": format!("{:?}", d.severity),
+                        "fixes": fixes,
+                        "notes": d.notes.iter().map(|(_, p)| pos_json(p)).collect::<Vec<_>>(),
+                    }));
+                }
+            }
+            diags
+        })) {
+            Ok(diags) => {
+                out["check"] = json!("ok");
+                out["diags"] = json!(diags);
+            }
+            Err(e) => {
+                out["check"] = json!("panic");
+                out["check_panic"] = json!(panic_msg(e));
+            }
+        }
+    }
+
+    if req["format"].as_bool() != Some(false) {
+        match catch_unwind(AssertUnwindSafe(|| crate::format::format(&src, &path))) {
+            Ok(s) => {
+                out["format"] = json!("ok");
+                if req["formatted"].as_bool() == Some(true) {
+                    out["formatted"] = json!(s);
+                }
+            }
+            Err(e) => {
+                out["format"] = json!("panic");
+                out["format_panic"] = json!(panic_msg(e));
+            }
+        }
+    }
+
+    out
+}
+
+/// The same dump `reftest-ast` prints (positions are elided by
+/// `Position`'s `Debug` impl), plus the parse error count.
+fn mode_ast(req: &J) -> J {
+    let src = req["src"].as_str().unwrap_or("").to_owned();
+    let path = src_path(req);
+    let (_vfs, vfs_path) = Vfs::singleton(path, src.clone());
+    let mut id_gen = IdGenerator::default();
+    let (items, errors) = parse_toplevel_items(&vfs_path, &src, &mut id_gen);
+    let mut dump = String::new();
+    for item in items {
+        match item {
+            crate::parser::ast::ToplevelItem::Expr(e) => {
+                dump.push_str(&format!("{:#?}\n", e.0.expr_));
+            }
+            d => {
+                dump.push_str(&format!("{d:#?}\n"));
+            }
+        }
+    }
+    json!({"parse_errors": parse_errors_json(&errors), "dump": dump})
+}
+
+fn type_of_json(j: &J) -> Type {
+    let k = j["k"].as_str().unwrap_or("Any");
+    let args = |key: &str| -> Vec<Type> {
+        j[key]
+            .as_array()
+            .map(|a| a.iter().map(type_of_json).collect())
+            .unwrap_or_default()
+    };
+    match k {
+        "Any" => Type::Any,
+        "NoValue" => Type::no_value(),
+        "Tuple" => Type::Tuple(args("args")),
+        "Fun" => Type::Fun {
+            name_sym: None,
+            type_params: vec![],
+            params: args("params"),
+            return_: Box::new(type_of_json(&j["ret"])),
+        },
+        "Param" => Type::TypeParameter(TypeName {
+            text: j["name"].as_str().unwrap_or("T").to_owned(),
+        }),
+        "Error" => Type::error("verif"),
+        _ => Type::UserDefined {
+            kind: if j["struct"].as_bool() == Some(true) {
+                TypeDefKind::Struct
+            } else {
+                TypeDefKind::Enum
+            },
+            name: TypeName {
+                text: j["name"].as_str().unwrap_or(k).to_owned(),
+            },
+            args: args("args"),
+        },
+    }
+}
+
+fn type_to_json(t: &Type) -> J {
+    match t {
+        Type::Any => json!({"k": "Any"}),
+        Type::Tuple(a) => json!({"k": "Tuple", "args": a.iter().map(type_to_json).collect::<Vec<_>>()}),
+        Type::Fun {
+            params, return_, ..
+        } => {
+            json!({"k": "Fun", "params": params.iter().map(type_to_json).collect::<Vec<_>>(), "ret": type_to_json(return_)})
+        }
+        Type::UserDefined { kind, name, args } => {
+            if t.is_no_value() {
+                json!({"k": "NoValue"})
+            } else {
+                json!({"k": "User", "name": name.text, "struct": matches!(kind, TypeDefKind::Struct), "args": args.iter().map(type_to_json).collect::<Vec<_>>()})
+            }
+        }
+        Type::TypeParameter(n) => json!({"k": "Param", "name": n.text}),
+        Type::Error { .. } => json!({"k": "Error"}),
+    }
+}
+
+fn mode_subtype(req: &J) -> J {
+    let a = type_of_json(&req["a"]);
+    let b = type_of_json(&req["b"]);
+    let u = crate::checks::type_checker::verif_unify(&a, &b);
+    json!({
+        "ab": is_subtype(&a, &b),
+        "ba": is_subtype(&b, &a),
+        "unify": u.as_ref().map(type_to_json),
+        "a_show": format!("{a}"),
+        "b_show": format!("{b}"),
+    })
+}
+
+fn mode_lsppos(req: &J) -> J {
+    let src = req["src"].as_str().unwrap_or("");
+    crate::lsp::verif_positions(src, req)
+}
+
+pub(crate) fn run_batch(mode: &str, path: &Path) {
+    let input = std::fs::read_to_string(path).expect("could not read batch file");
+    std::panic::set_hook(Box::new(|_| {}));
+
+    use std::io::Write;
+    let stdout = std::io::stdout();
+    for line in input.lines() {
+        if line.trim().is_empty() {
+            continue;
+        }
+        let req: J = match serde_json::from_str(line) {
+            Ok(j) => j,
+            Err(e) => {
+                let mut h = stdout.lock();
+                let _ = writeln!(h, "{}", json!({"bad_request": e.to_string()}));
+                continue;
+            }
+        };
+        let r = catch_unwind(AssertUnwindSafe(|| match mode {
+            "run" => mode_run(&req),
+            "frontend" => mode_frontend(&req),
+            "ast" => mode_ast(&req),
+            "subtype" => mode_subtype(&req),
+            "lsppos" => mode_lsppos(&req),
+            _ => json!({"bad_mode": mode}),
+        }));
+        let mut res = match r {
+            Ok(j) => j,
+            Err(e) => json!({"outcome": "panic", "panic": panic_msg(e)}),
+        };
+        if let Some(id) = req.get("id") {
+            res["id"] = id.clone();
+        }
+        let mut h = stdout.lock();
+        let _ = writeln!(h, "{}", res);
+        let _ = h.flush();
+    }
+}
